@@ -122,7 +122,12 @@ def get_attribute(ctx, obj, name):
     if isinstance(obj, float) and name == 'is_integer':
         return lambda ctx: obj.is_integer()
     if isinstance(obj, str):
+        if name == 'format':
+            ctx.dropped.add('str.format')
+            return lambda ctx, *a, **k: SOpaque('str')
         raise Unsupported('str method %s' % name)
+    if obj is None or isinstance(obj, (bool, int, float)):
+        raise PyRaise('AttributeError', note='%r object has no attribute %r' % (type(obj).__name__, name))
     raise Unsupported('attribute %s of %s' % (name, type(obj).__name__))
 
 
